@@ -57,7 +57,14 @@ def run(chk):
                 "[1, 2].map(v, has(nosuch(v)))"]:
         add(src, [("i1", vi(5)), ("i0", vi(0)), ("m1", vmap([("a", vi(1))])), ("x", vi(1)), ("y", vi(2))], "ERRANY")
     for src, w in [("has(1)", "OK b1"), ("has(null)", "OK b1"), ("has(false)", "OK b1"), ("has(m1.a)", "OK b1"),
-                   ("has(m1.b)", "OK b0"), ("has(m1['b'])", "OK b0"), ("has(zz)", "OK b0"), ("has(m1) && has(m1.a)", "OK b1")]:
+                   ("has(m1.b)", "OK b0"), ("has(m1['b'])", "OK b0"), ("has(zz)", "OK b0"), ("has(m1) && has(m1.a)", "OK b1"),
+                   # absent data as the RECEIVER of a method or macro call: still absent data, whatever is called on it
+                   ("has(m1.b.size())", "OK b0"), ("has(zz.size())", "OK b0"), ("has(m1.b.map(v, v))", "OK b0"),
+                   ("has(m1.b.contains('a'))", "OK b0"), ("coalesce(m1.b.size(), 7)", "OK " + vi(7)),
+                   ("[1, 2].map(i, has(m1.b.size()))", "OK " + vlist([vb(False), vb(False)])), ("has(m1.b.c.toUpper())", "OK b0"),
+                   ("has(zz.filter(v, true))", "OK b0"), ("has(m1.b.all(v, v))", "OK b0"), ("coalesce(zz.trim(), m1.b.size(), 3)", "OK " + vi(3)),
+                   ("has(m1.b.reduce(a, v, a, 0))", "OK b0"), ("has(zz.exists(v, true))", "OK b0"), ("has(m1.b.getHours())", "OK b0"),
+                   ("has(m1.a.size())", "ERRANY"), ("has(m1.a.map(v, v))", "ERRANY")]:
         add(src, [("m1", vmap([("a", vi(1))]))], w)
     # absent data in CONSTANT maps (the compiler folds the lookup to an error constant): still absent data
     for src, w in [("coalesce({'a': 1}['b'], 5)", "OK " + vi(5)), ("coalesce({'a': 1}.b, 5)", "OK " + vi(5)),
